@@ -9,6 +9,7 @@
    "MIR_alloc_t calls modelled by CBMC's malloc/realloc/free (allocator dispatch itself is C17's subject)". */
 #if H_CBMC && !defined(MIR_ALLOC_H)
 #define MIR_ALLOC_H
+#define H_ALLOC_NATIVE 1
 #include <assert.h>
 #include <stddef.h>
 #include <stdlib.h>
